@@ -222,6 +222,13 @@ func confFuncs(c *gen.CSVCase) []csv.ConfigFunc {
 	if c.Alias != "" {
 		ff = append(ff, csv.MissingColumnNameAlias(c.Alias))
 	}
+	// the options in an order that depends on the document (each sets what it
+	// is about and nothing else; the same order for every read of one case)
+	r := core.NewSplitMix(core.Hash64(c.Doc, len(ff)))
+	for i := len(ff) - 1; i > 0; i-- {
+		j := r.Intn(i + 1)
+		ff[i], ff[j] = ff[j], ff[i]
+	}
 	return ff
 }
 
